@@ -109,6 +109,10 @@ impl<T: Sync + Send + 'static> Nucleo<T> {
     pub fn verif_should_notify_addr(&self) -> u64 {
         Arc::as_ptr(&self.should_notify) as u64
     }
+    /// Address reported by the accesses to the cancel flag.
+    pub fn verif_canceled_addr(&self) -> u64 {
+        Arc::as_ptr(&self.canceled) as u64
+    }
 }
 
 /// Public facade over the crate-private lock-free vector.
